@@ -310,11 +310,68 @@ fn boundary_word() -> impl Strategy<Value = u32> {
     ]
 }
 
+/// a known tag with one byte replaced (0x00, 0xff, case flip, +-1, arbitrary): words a sloppy tag matcher might accept
+fn near_tag() -> impl Strategy<Value = u32> {
+    (prop::sample::select(rc::KNOWN.to_vec()), 0usize..4, prop_oneof![Just(0x00u8), Just(0xffu8), Just(0x20u8), any::<u8>()], 0u8..4).prop_map(|(t, pos, b, how)| {
+        let mut w = t.to_le_bytes();
+        w[pos] = match how {
+            0 => b,
+            1 => w[pos] ^ 0x20,
+            2 => w[pos].wrapping_add(1),
+            _ => w[pos].wrapping_sub(1),
+        };
+        u32::from_le_bytes(w)
+    })
+}
+
+/// exhaustive near-tag space: every known tag x byte position x byte value, in three message shapes
+pub fn near_tag_total() -> u64 {
+    18 * 4 * 256 * 3
+}
+
+pub fn near_tag_message(i: u64) -> Vec<u8> {
+    let shape = i % 3;
+    let r = i / 3;
+    let byte = (r % 256) as u8;
+    let pos = ((r / 256) % 4) as usize;
+    let t = rc::KNOWN[(r / 1024) as usize % 18];
+    let mut w = t.to_le_bytes();
+    w[pos] = byte;
+    let word = u32::from_le_bytes(w);
+    let mut out = vec![];
+    match shape {
+        0 => {
+            // single field
+            out.extend_from_slice(&1u32.to_le_bytes());
+            out.extend_from_slice(&word.to_le_bytes());
+            out.extend_from_slice(&[1, 2, 3, 4]);
+        }
+        1 => {
+            // NONC then the word
+            out.extend_from_slice(&2u32.to_le_bytes());
+            out.extend_from_slice(&4u32.to_le_bytes());
+            out.extend_from_slice(&rc::NONC.to_le_bytes());
+            out.extend_from_slice(&word.to_le_bytes());
+            out.extend_from_slice(&[1, 2, 3, 4, 5, 6, 7, 8]);
+        }
+        _ => {
+            // the word then ROOT
+            out.extend_from_slice(&2u32.to_le_bytes());
+            out.extend_from_slice(&4u32.to_le_bytes());
+            out.extend_from_slice(&word.to_le_bytes());
+            out.extend_from_slice(&rc::ROOT.to_le_bytes());
+            out.extend_from_slice(&[1, 2, 3, 4, 5, 6, 7, 8]);
+        }
+    }
+    out
+}
+
 fn mutation() -> impl Strategy<Value = Mut> {
     prop_oneof![
         3 => boundary_word().prop_map(Mut::SetCount),
         4 => (any::<u16>(), boundary_word()).prop_map(|(i, v)| Mut::SetOffset(i, v)),
         2 => (any::<u16>(), prop_oneof![prop::sample::select(rc::KNOWN.to_vec()), Just(u32::from_le_bytes(*b"XXXX")), any::<u32>()]).prop_map(|(i, v)| Mut::SetTag(i, v)),
+        2 => (any::<u16>(), near_tag()).prop_map(|(i, v)| Mut::SetTag(i, v)),
         2 => (any::<u16>(), any::<u16>()).prop_map(|(a, b)| Mut::SwapTags(a, b)),
         1 => any::<u16>().prop_map(Mut::DupTag),
         2 => (any::<u16>(), boundary_word()).prop_map(|(i, v)| Mut::SetWord(i, v)),
@@ -515,6 +572,13 @@ pub fn run(mode: Mode, ctx: &mut Ctx) -> Vec<Violation> {
         }
     }
 
+    // (b2) exhaustive near-tag words: every known tag with one byte replaced by every value
+    let v = run_enum(ctx, "near-tags", near_tag_total(), |i| RawCase { bytes: Hex(near_tag_message(i)) }, |ctx, c| check(mode, ctx, &c.bytes.0, "near-tag"));
+    if v.is_empty() && ctx.shard == 0 {
+        ctx.stats.exhaustive_spaces.push("every known tag x byte position x byte value (18,432 tag words) in three message shapes".into());
+    }
+    out.extend(v);
+
     // (c) structured mutants
     out.extend(run_prop(ctx, "mutants", t.pick(30_000, 600_000), 3000, mut_case(64), |ctx, c| {
         let base = c.base.to_ref().encode();
@@ -566,7 +630,7 @@ pub fn run(mode: Mode, ctx: &mut Ctx) -> Vec<Violation> {
 pub fn replay(mode: Mode, ctx: &mut Ctx, sub: &str, case: &Value) -> Res {
     match sub {
         "api" | "api-large" => replay_case::<ApiMsg, _>(ctx, case, |ctx, c| api_roundtrip(ctx, c)),
-        "exh-words" | "random" | "count-arith" | "raw" => replay_case::<RawCase, _>(ctx, case, |ctx, c| check(mode, ctx, &c.bytes.0, "replay")),
+        "exh-words" | "near-tags" | "random" | "count-arith" | "raw" => replay_case::<RawCase, _>(ctx, case, |ctx, c| check(mode, ctx, &c.bytes.0, "replay")),
         "mutants" | "mutants-large" => replay_case::<MutCase, _>(ctx, case, |ctx, c| {
             let base = c.base.to_ref().encode();
             let x = apply_muts(&base, c.base.fields.len(), &c.muts);
